@@ -116,7 +116,7 @@ func OpenDir(baseDir string) (*Bundle, error) {
 			ret.registryPackageVersionDeprecations[pkgAddr] = deprecations
 		}
 		for versionStr, mv := range rpm.Versions {
-			version, err := versions.ParseVersion(versionStr)
+			version, err := parseManifestVersion(versionStr)
 			if err != nil {
 				return nil, fmt.Errorf("invalid registry package version %q: %w", versionStr, err)
 			}
@@ -130,6 +130,20 @@ func OpenDir(baseDir string) (*Bundle, error) {
 	}
 
 	return ret, nil
+}
+
+// parseManifestVersion is versions.ParseVersion, except that a panic inside
+// that parser (it panics on a numeric component that does not fit into 64
+// bits) is reported as an ordinary error, so that a damaged or hostile
+// manifest cannot crash OpenDir.
+func parseManifestVersion(s string) (v versions.Version, err error) {
+	defer func() {
+		if r := recover(); r != nil {
+			v = versions.Unspecified
+			err = fmt.Errorf("%v", r)
+		}
+	}()
+	return versions.ParseVersion(s)
 }
 
 // LocalPathForSource takes either a remote or registry final source address
